@@ -221,6 +221,12 @@ def c_eval(node, env, cu=None, depth=0):
         return c_eval(inner[-1], env)
     if k == "IntegerLiteral":
         return int(node["value"])
+    if k == "ArraySubscriptExpr":
+        base = _c_array(inner[0], env)
+        idx = c_eval(inner[1], env, cu, depth)
+        if not isinstance(base, list) or not isinstance(idx, int) or not 0 <= idx < len(base):
+            raise CEvalError(f"subscript {idx} of {'array of ' + str(len(base)) if isinstance(base, list) else 'non-array'}")
+        return base[idx]
     if k == "DeclRefExpr":
         nm = node.get("referencedDecl", {}).get("name")
         if nm not in env:
@@ -280,6 +286,25 @@ def c_eval(node, env, cu=None, depth=0):
     raise CEvalError(f"node kind {k}")
 
 
+def _c_array(node, env):
+    """the Python list bound to the array expression `name` / `p->name` (casts and parentheses removed)"""
+    while node.get("kind") in ("ImplicitCastExpr", "ParenExpr", "CStyleCastExpr"):
+        node = node["inner"][-1]
+    if node.get("kind") == "DeclRefExpr":
+        return env.get(node.get("referencedDecl", {}).get("name"))
+    if node.get("kind") == "MemberExpr":
+        return env.get(node.get("name"))
+    return None
+
+
+class _CBreak(Exception):
+    pass
+
+
+class _CContinue(Exception):
+    pass
+
+
 def c_exec(stmt, env, cu):
     """Executes a side-effect-simple statement (compound statement, if / else, assignments `name = expr` / `name op= expr` to plain variables)
     on `env` (name -> int) in place. Anything else raises CEvalError."""
@@ -300,4 +325,72 @@ def c_exec(stmt, env, cu):
         return env
     if k == "NullStmt":
         return env
+    if k == "DeclStmt":
+        for d in inner:
+            if d.get("kind") != "VarDecl":
+                raise CEvalError(f"declaration {d.get('kind')}")
+            init = [x for x in d.get("inner", []) or [] if x.get("kind") not in ("FullComment",)]
+            qt = (d.get("type") or {}).get("qualType", "")
+            import re as _re
+
+            m_ = _re.search(r"\[(\d+)\]$", qt)
+            if m_ and not init:
+                env[d["name"]] = [0] * int(m_.group(1))
+            else:
+                env[d["name"]] = c_eval(init[0], env, cu) if init else 0
+        return env
+    if k == "ForStmt":
+        init, _condvar, cond, inc, body = (inner + [None] * 5)[:5]
+        if init and init.get("kind"):
+            c_exec(init, env, cu)
+        steps = 0
+        while not (cond and cond.get("kind")) or c_eval(cond, env, cu):
+            steps += 1
+            if steps > 100000:
+                raise CEvalError("loop does not terminate within 100000 steps")
+            try:
+                c_exec(body, env, cu)
+            except _CBreak:
+                break
+            except _CContinue:
+                pass
+            if inc and inc.get("kind"):
+                c_exec(inc, env, cu)
+        return env
+    if k in ("ParenExpr", "CStyleCastExpr") and not any(x.get("kind") in ("CallExpr", "CompoundAssignOperator") or (x.get("kind") in ("BinaryOperator", "UnaryOperator") and x.get("opcode") in ("=", "++", "--"))
+                                                        for x in cu.walk(stmt)):
+        return env  # an expression statement without side effects: `((void)0)` of a compiled-out assert
+    if k == "BreakStmt":
+        raise _CBreak()
+    if k == "ContinueStmt":
+        raise _CContinue()
+    if k == "UnaryOperator" and stmt.get("opcode") in ("++", "--") and inner[0].get("kind") == "DeclRefExpr":
+        nm = inner[0]["referencedDecl"]["name"]
+        env[nm] = env[nm] + (1 if stmt["opcode"] == "++" else -1)
+        return env
+    if k == "BinaryOperator" and stmt.get("opcode") == "=":
+        tgt = inner[0]
+        while tgt.get("kind") in ("ParenExpr",):
+            tgt = tgt["inner"][-1]
+        if tgt.get("kind") == "MemberExpr":
+            env[tgt["name"]] = c_eval(inner[1], env, cu)
+            return env
+        if tgt.get("kind") == "ArraySubscriptExpr":
+            base = _c_array(tgt["inner"][0], env)
+            idx = c_eval(tgt["inner"][1], env, cu)
+            if not isinstance(base, list) or not 0 <= idx < len(base):
+                raise CEvalError(f"store to subscript {idx} of {'array of ' + str(len(base)) if isinstance(base, list) else 'non-array'}")
+            base[idx] = c_eval(inner[1], env, cu)
+            return env
+    if k == "CallExpr":
+        callee = [x.get("referencedDecl", {}).get("name") for x in cu.walk(inner[0]) if x.get("kind") == "DeclRefExpr"]
+        if callee and callee[0] == "memset" and len(inner) == 4:
+            base = _c_array(inner[1], env)
+            if isinstance(base, list):
+                v = c_eval(inner[2], env, cu)
+                base[:] = [v] * len(base) if v == 0 else base
+                if v != 0:
+                    raise CEvalError("memset with a non-zero value")
+                return env
+        raise CEvalError(f"call statement {callee}")
     raise CEvalError(f"statement {k}")
